@@ -205,6 +205,107 @@ class TracingLocal(_orig_local):
         TRACE.rec("del", 0, None, "unit", _caller_name())
 
 
+# ------------------------------------------------------------------------------------------------ cooperative locks
+# While cattrs is imported `threading.Lock` / `threading.RLock` are these factories (and afterwards a cattrs module that
+# holds the `threading` module itself sees a proxy with them), so every lock cattrs code creates is cooperative: a
+# scheduled worker that cannot get the lock does not block the interpreter thread that holds the scheduling token, it
+# tells the scheduler (`Scheduler._block`), which runs another thread -- and knows, exactly and without any timing,
+# when NO live thread can run: a deadlock.  Outside a scheduled run they behave like the real locks.
+
+_orig_Lock = threading.Lock
+_orig_RLock = threading.RLock
+
+
+class SchedDeadlock(BaseException):
+    """raised inside the blocked acquire() of every worker when the run is torn down after a deadlock"""
+
+
+class _CoopBase:
+    __slots__ = ("_inner", "_owner", "_where")
+
+    def acquire(self, blocking=True, timeout=-1):
+        S = Scheduler._active
+        ix = TRACE.tid_of.get(threading.get_ident()) if S is not None else None
+        if ix is None or S.abort:
+            if S is not None and S.abort and ix is not None:
+                if self._inner.acquire(False):
+                    return True
+                raise SchedDeadlock()
+            return self._inner.acquire(blocking, timeout)
+        while True:
+            if self._inner.acquire(False):
+                self._owner = ix
+                try:
+                    f = sys._getframe(1)
+                    if f.f_code.co_name == "__enter__":
+                        f = f.f_back
+                    self._where = f"{os.path.basename(f.f_code.co_filename)}:{f.f_lineno}"
+                except Exception:  # noqa: BLE001
+                    self._where = "?"
+                return True
+            if not blocking:
+                return False
+            S._block(ix, self)          # returns when this thread is scheduled again; raises SchedDeadlock on teardown
+
+    def release(self):
+        self._inner.release()
+        S = Scheduler._active
+        if S is not None and S.blocked:
+            for t in [t for t, l in S.blocked.items() if l is self]:
+                del S.blocked[t]
+
+    def __enter__(self):
+        self.acquire()
+        return True
+
+    def __exit__(self, *a):
+        self.release()
+
+    def locked(self):
+        return self._inner.locked()
+
+    def __getattr__(self, name):
+        return getattr(self._inner, name)
+
+
+class CoopLock(_CoopBase):
+    __slots__ = ()
+
+    def __init__(self):
+        self._inner = _orig_Lock()
+        self._owner = None
+        self._where = "?"
+
+
+class CoopRLock(_CoopBase):
+    __slots__ = ()
+
+    def __init__(self):
+        self._inner = _orig_RLock()
+        self._owner = None
+        self._where = "?"
+
+    def locked(self):
+        if self._inner.acquire(False):
+            self._inner.release()
+            return False
+        return True
+
+
+class _ThreadingProxy:
+    """what a cattrs module that did `import threading` sees"""
+
+    def __init__(self, mod):
+        self.__dict__["_mod"] = mod
+
+    Lock = CoopLock
+    RLock = CoopRLock
+    local = None    # set after TracingLocal exists
+
+    def __getattr__(self, name):
+        return getattr(self._mod, name)
+
+
 # ------------------------------------------------------------------------------------------------ memo-table tracing
 # (corr:C19:GENSCHED)  Nothing under /repo is touched: `dispatch_without_caching` is wrapped on the CLASS after the
 # import (so the `lru_cache` every later converter builds in `MultiStrategyDispatch.__init__` wraps the tracing
@@ -327,7 +428,15 @@ def install_tracing():
         raise RuntimeError("install_tracing() must run before cattrs is imported")
     if CATTRS_SRC not in sys.path[:1]:
         sys.path.insert(0, CATTRS_SRC)
+    for dep in ("attrs", "attr", "typing_extensions", "exceptiongroup"):   # not ours to instrument
+        try:
+            __import__(dep)
+        except Exception:  # noqa: BLE001
+            pass
+    _ThreadingProxy.local = TracingLocal
     threading.local = TracingLocal
+    threading.Lock = CoopLock
+    threading.RLock = CoopRLock
     try:
         import cattrs  # noqa: F401
         import cattrs.cols  # noqa: F401
@@ -336,6 +445,8 @@ def install_tracing():
         import cattrs.strategies  # noqa: F401
     finally:
         threading.local = _orig_local
+        threading.Lock = _orig_Lock
+        threading.RLock = _orig_RLock
     src = os.path.realpath(os.path.dirname(sys.modules["cattrs"].__file__))
     if not src.startswith(os.path.realpath(CATTRS_SRC)):
         raise RuntimeError(f"cattrs was imported from {src}, expected {CATTRS_SRC}")
@@ -348,6 +459,9 @@ def install_tracing():
             if "already_generating" in d and "set" not in d:
                 mod.set = TracingSet
                 TRACE.patched_modules.append(name)
+            for k, v in list(d.items()):
+                if v is threading:
+                    setattr(mod, k, _ThreadingProxy(threading))
     try:
         msd_cls = sys.modules["cattrs.dispatch"].MultiStrategyDispatch
         orig = msd_cls.__dict__.get("dispatch_without_caching")
@@ -420,7 +534,8 @@ def policy_from_json(d):
 
 # ------------------------------------------------------------------------------------------------ scheduler
 
-_PURE_FILES = ("_compat.py", "_generics.py", "typealiases.py", "fns.py", "literals.py", "errors.py", "_lc.py")
+# (gen/_lc.py is NOT in this list: it works on the process-global `linecache.cache`)
+_PURE_FILES = ("_compat.py", "_generics.py", "typealiases.py", "fns.py", "literals.py", "errors.py")
 _src_cache = {}
 
 
@@ -441,8 +556,7 @@ def full_want(code, _cache={}):
 def reduced_want(code, _files={}, _funcs={}):
     """Partial-order reduction: no scheduling points inside code that touches no state shared between threads --
     the pure type predicates / helpers of `_compat.py` (except `adapted_fields`, which resolves string
-    annotations ON the class), `_generics.py`, `typealiases.py`, `fns.py`, `literals.py`, `errors.py`, `gen/_lc.py`
-    (a single `dict.setdefault`), and the predicate loop of `FunctionDispatch.dispatch` (only the lines that call
+    annotations ON the class), `_generics.py`, `typealiases.py`, `fns.py`, `literals.py`, `errors.py`, and the predicate loop of `FunctionDispatch.dispatch` (only the lines that call
     a handler factory remain).  A switch at such a line commutes with the other threads' steps, so it is
     equivalent to a switch at the next remaining point.  Returns False / True / a frozenset of line numbers.
     (Nothing is cached per code object: hashing a code object is expensive and would keep generated code alive.)"""
@@ -533,6 +647,47 @@ class Scheduler:
         self.own = []
         self.abort = False
         self.timed_out = False
+        self.blocked = {}         # logical thread id -> the cooperative lock it waits for
+        self.deadlock = None      # description, once no live thread can run
+        self.on_switch = None     # optional probe called (with the thread id) whenever the token changes hands
+        self.hung = False         # the token holder made no progress for HANG seconds (not a cooperative lock)
+
+    HANG = 12.0
+
+    def _runnable(self):
+        if not self.blocked:
+            return self.live
+        return [t for t in self.live if t not in self.blocked]
+
+    def _declare_deadlock(self):
+        parts = []
+        for t in self.live:
+            l = self.blocked.get(t)
+            if l is not None:
+                parts.append(f"thread {t} waits for a {type(l).__name__[4:]} taken by thread {l._owner} at {l._where}")
+        self.deadlock = "; ".join(parts) or "no live thread can run"
+        self.abort = True
+        for g in self.sems:
+            g.open_forever()
+
+    def _block(self, ix, lock):
+        """thread `ix` (holding the token) cannot get `lock`: run somebody else, or find that nobody can run"""
+        self.blocked[ix] = lock
+        run = self._runnable()
+        if not run:
+            self._declare_deadlock()
+            raise SchedDeadlock()
+        self.steps += 1
+        nxt = self.policy.choose(ix, self.own[ix], run)
+        self.switches += 1
+        if self.on_switch is not None:
+            self.on_switch(ix)
+        self.sems[nxt].release()
+        if not self.sems[ix].acquire(timeout=self.TIMEOUT):
+            self.abort = True
+            self.timed_out = True
+        if self.abort:
+            raise SchedDeadlock()
 
     # -- executed by the thread holding the token
     def _yield(self, ix, filename, lineno):
@@ -542,9 +697,11 @@ class Scheduler:
         self.own[ix] += 1
         if self.record_points:
             self.points.append((ix, self.own[ix], filename, lineno))
-        nxt = self.policy.choose(ix, self.own[ix], self.live)
+        nxt = self.policy.choose(ix, self.own[ix], self._runnable())
         if nxt != ix:
             self.switches += 1
+            if self.on_switch is not None:
+                self.on_switch(ix)
             self.sems[nxt].release()
             if not self.sems[ix].acquire(timeout=self.TIMEOUT):
                 self.abort = True
@@ -642,9 +799,14 @@ class Scheduler:
             sys.settrace(None)
             TRACE.tid_of.pop(threading.get_ident(), None)
             self.live.remove(ix)
+            self.blocked.pop(ix, None)
             if self.live and not self.abort:
-                nxt = self.policy.choose(ix, self.own[ix], self.live)
-                self.sems[nxt].release()
+                run = self._runnable()
+                if run:
+                    nxt = self.policy.choose(ix, self.own[ix], run)
+                    self.sems[nxt].release()
+                else:                      # everybody left waits for a lock nobody will release
+                    self._declare_deadlock()
             elif not self.live:
                 self.all_done.set()
 
@@ -662,7 +824,22 @@ class Scheduler:
             for t in ths:
                 t.start()
             self.sems[self.policy.start(self.live)].release()
-            finished = self.all_done.wait(timeout=self.TIMEOUT * 2)
+            # watchdog: the run ends, or the token holder stops making progress (blocked in something that is not a
+            # cooperative lock) -- the caller retries the schedule to tell a reproducible hang from a slow machine
+            t_end = time.time() + self.TIMEOUT * 2
+            last, t_last = -1, time.time()
+            finished = False
+            while time.time() < t_end:
+                finished = self.all_done.wait(timeout=0.25)
+                if finished or self.abort:
+                    break
+                if self.steps != last:
+                    last, t_last = self.steps, time.time()
+                elif time.time() - t_last > self.HANG:
+                    self.hung = True
+                    break
+            if self.deadlock is not None:
+                finished = self.all_done.wait(timeout=self.TIMEOUT)
             if not finished or self.timed_out:
                 self.abort = True
                 for s in self.sems:      # let everybody run free to completion
@@ -673,6 +850,11 @@ class Scheduler:
         finally:
             Scheduler._active = None
         left = [t.name for t in ths if t.is_alive()]
+        if self.deadlock is not None and not left:
+            return self.out
         if not finished or self.timed_out or left:
-            raise SchedTimeout(f"scheduler timed out (threads left: {left})")
+            e = SchedTimeout(f"scheduler timed out (threads left: {left}; no progress: {self.hung})")
+            e.hung = self.hung
+            e.steps = self.steps
+            raise e
         return self.out
